@@ -245,3 +245,10 @@ def left_fold(eng, tier, seed):
 
 
 EXTRA_CHECKS = [precedence_structure, literal_enumeration, left_fold]
+
+
+# effect obligations (AST, complete for what they state): no argument-keyed cache decorator, no module-level state - see
+# specs/common.py (the outcome of reading a text depends on the text and its dependencies, not on earlier reads)
+from .common import no_hidden_state_check as _no_hidden_state_check  # noqa: E402
+EXTRA_CHECKS = list(globals().get("EXTRA_CHECKS", [])) + [_no_hidden_state_check(
+    ["pydsdl._expression._any", "pydsdl._expression._primitive", "pydsdl._expression._container", "pydsdl._expression._operator", "pydsdl._parser"], "the expression layer and the literal visitors")]
